@@ -24,6 +24,10 @@ CHECKS = {
    text="Generated invalid and valid coordinates, octet strings (all lengths x prefix bytes) and scalars are pushed through every import path (raw, SEC1 octets, DER, SPKI DER/PEM, ECPrivateKey/PKCS#8, certificate/request SPKI, sm2_ecdh, TLS ECDHE records, TLS 1.3 key shares); import must succeed iff the model says the point/scalar is valid, never yield infinity, and reject mismatching embedded public keys. Exploration only.",
    note="Trusted: vlib/ref/sm2.py curve predicate, sigder.py container builders (each with a positive control). SM9 point import is covered by C17's group sub-check, not here.",
    design="4/C12"),
+ "C08": dict(level="exploration", technique="property-based testing (Hypothesis) of two real library endpoints over socketpairs through a harness-owned fragmenting proxy; model-based stream oracle (Python queue), key/secret agreement read from both TLS_CONNECT structs",
+   text="Generated protocol x auth mode x chain depth x transfer program (directions, write sizes 1..50000, read buffer sizes, fragmentation schedule, closer). Both handshakes must complete with equal secrets; every read must return the next bytes of the model queue. The byte-delivery schedule is owned by the proxy; CPU interleaving of the endpoint threads is only sampled.",
+   note="Trusted: Python PKI builder (vlib/ref/x509.py) and stream model; entropy scripted, clock frozen. A 60 s command time-out is inconclusive, never a violation.",
+   design="4/C08"),
 }
 
 NOT_YET = {
